@@ -3,7 +3,7 @@ import networkx as nx
 from networkx import dfs_edges, dfs_postorder_nodes
 import numpy as np
 from numpy import isscalar, reshape
-from numbers import Number, Integral
+from numbers import Number
 from collections import deque
 from copy import deepcopy
 import textwrap
@@ -1530,8 +1530,9 @@ class AllConnGraph(nx.DiGraph):
                     model._inputs._abs_set_val(node[1], tval)
                 else:
                     idx = indices()
-                    if isinstance(idx, Integral) and np.size(tval) == 1:
-                        # a single entry is addressed: assign a scalar, not a 1-element array
+                    if np.size(tval) == 1:
+                        # a single value: assign a scalar, which is broadcast to whatever the
+                        # index addresses (one entry for an int or a tuple of ints)
                         tval = np.asarray(tval).reshape(-1)[0]
                     model._inputs._abs_set_val(node[1], tval, idx=idx)
         else:
